@@ -83,6 +83,23 @@ func getNonPluginExtendedCriticalAttributes(signerInfo *signature.SignerInfo) []
 	return criticalExtendedAttrs
 }
 
+// getUnknownCriticalExtendedAttributes returns the critical extended
+// attributes, keyed by any type, that notation does not process itself, i.e.
+// all of them except the verification plugin headers.
+func getUnknownCriticalExtendedAttributes(signerInfo *signature.SignerInfo) []signature.Attribute {
+	var attrs []signature.Attribute
+	for _, attr := range signerInfo.SignedAttributes.ExtendedAttributes {
+		if !attr.Critical {
+			continue
+		}
+		if attrStrKey, ok := attr.Key.(string); ok && slices.Contains(VerificationPluginHeaders, attrStrKey) {
+			continue
+		}
+		attrs = append(attrs, attr)
+	}
+	return attrs
+}
+
 // extractCriticalStringExtendedAttribute extracts a critical string Extended
 // attribute from a signer.
 func extractCriticalStringExtendedAttribute(signerInfo *signature.SignerInfo, key string) (string, error) {
